@@ -181,8 +181,8 @@ CHECKS["C06"] = dict(
          "expressions over a ladder of 64 release versions rendered with spelling variants; the result must validate, every ladder version is probed against the extracted native rule, and the emitted "
          "constraints are compared with the conversion model of the theorem; shorthands (^, ~, x, ~>, +) are probed around every bound against the extracted rules.",
     ref="6 (C06)", technique="Coq proof (interval-set union lemma + induction over alternatives; arithmetic on release triples by lia) + conversion-model correspondence and exhaustive ladder probing",
-    note="PARTIAL: well-formedness of the converted range is checked on the implementation, not proved; the parsers of the native notations are not modelled (the emitted constraints are compared "
-         "with the conversion model instead); conan and gem shorthands are evaluated against the rules on numeric triples without a theorem on their own version models. Assumes C01/C02 of the scheme. "
+    note="Also proved: the converted range is well-formed (native_conversion_wf) and the containment code on it answers the native rule without raising (with C04). PARTIAL: the parsers of the "
+         "native notations are not modelled (the emitted constraints are compared with the conversion model instead); conan and gem shorthands are evaluated against the rules on numeric triples without a theorem on their own version models. Assumes C01/C02 of the scheme. "
          "Known findings: deprecated Debian '<' '>' read as strict; bare Maven/NuGet version gives '=None'; alternatives meeting at one version give an ill-formed range.")
 
 PENDING = {}
